@@ -215,6 +215,28 @@ def run(project, chk):
     audit(project, chk, "K2", f"{V}.oklch_to_rgb", REF, "inverse", pol(), "OKLCH -> sRGB (Ottosson)")
     audit(project, chk, "K3", f"{V}.linear_to_srgb", REF, "gamma", pol(var_map={"c": "channel"}), "the inverse sRGB transfer function")
     # the validators the safe wrappers rely on: the documented closed ranges, inclusive (H = 360 and L = 1 are valid input)
+    # a necessary condition that survives any rewrite of the validator: chroma has no upper limit (only its sign is tested), so every in-gamut and
+    # out-of-gamut triple the plain conversion accepts is also accepted by the safe one
+    from sa.formula import extract_function as _xf, Unsupported as _Uns, show as _show
+    try:
+        _ex, _env, _ret = _xf(project, project.func(f"{V}.is_valid_oklch"))
+        lims = []
+
+        def _walk(t):
+            if isinstance(t, tuple) and t:
+                if t[0] == "cmp" and t[3][0] == "num" and isinstance(t[3][1], (int, float)) and not isinstance(t[3][1], bool) and t[3][1] > 0 \
+                        and t[2][0] == "index" and t[2][2] == ("num", 1) and t[2][1][0] == "var":
+                    lims.append(t)
+                for x in t:
+                    if isinstance(x, tuple):
+                        _walk(x)
+        _walk(_ret)
+        fi5 = project.func(f"{V}.is_valid_oklch")
+        chk.check(not lims, "K5", fi5.short, _show(lims[0])[:60] if lims else "chroma tests", project.loc(fi5.module, fi5.node), "the validator bounds chroma from below only",
+                  how="comparisons of the chroma component with a positive constant: none", message=f"the validator rejects triples by an upper chroma limit ({_show(lims[0])[:60] if lims else ''}): "
+                  "the safe inverse falls back to grey for colours the plain conversion clips into gamut")
+    except _Uns:
+        pass
     audit(project, chk, "K5", f"{V}.is_valid_oklch", REF, "valid_oklch", Policy(), "the validity range of an OKLCH triple (L in [0,1], C >= 0, H in [0,360], inclusive)", inline=False)
     audit(project, chk, "K5", f"{V}.is_valid_rgb", REF, "valid_rgb", Policy(), "the validity range of an 8-bit triple (0..255 inclusive)", inline=False)
 
